@@ -66,6 +66,8 @@ struct Params {
     pre_yields: u32,
     /// the awaited event never comes: the cancel is the only way out of the blocking call
     never_release: bool,
+    /// the releaser issues the cancel itself right before (true) / right after (false) the event
+    adjacent: Option<bool>,
 }
 
 fn gen(seed: u64) -> Params {
@@ -83,6 +85,7 @@ fn gen(seed: u64) -> Params {
         owned: r.range(1, 3) as usize,
         pre_yields: r.below(3) as u32,
         never_release: r.chance(1, 4),
+        adjacent: if r.chance(1, 3) { Some(r.chance(2, 3)) } else { None },
     }
 }
 
@@ -285,6 +288,7 @@ pub fn run(seed: u64, mut ov: impl FnMut(&mut engine::Cfg)) -> ! {
         let (w2, rn) = (w.clone(), release_now.clone());
         let (dally, delay) = (p.release_dally, p.release_delay);
         let n_events = 1 + n_by;
+        let adjacent = if never { None } else { p.adjacent };
         let tco = target.co.as_ref().unwrap().coroutine().clone();
         actors.push(rt::spawn_actor(Ctx::Thread, "releaser", move || {
             for _ in 0..dally {
@@ -292,6 +296,10 @@ pub fn run(seed: u64, mut ov: impl FnMut(&mut engine::Cfg)) -> ! {
             }
             if delay > 0 {
                 engine::sleep(delay);
+            }
+            if adjacent == Some(true) {
+                w2.cancel_issued.store(true, Ordering::Relaxed);
+                unsafe { tco.cancel() };
             }
             rt::set_flag(&rn);
             if never {
@@ -326,6 +334,10 @@ pub fn run(seed: u64, mut ov: impl FnMut(&mut engine::Cfg)) -> ! {
                 }
                 _ => {}
             }
+            if adjacent == Some(false) {
+                w2.cancel_issued.store(true, Ordering::Relaxed);
+                unsafe { tco.cancel() };
+            }
             // keep the senders alive for a while, then disconnect: nobody must hang on them
             engine::sleep(60_000_000);
             drop(mpsc_tx);
@@ -337,7 +349,11 @@ pub fn run(seed: u64, mut ov: impl FnMut(&mut engine::Cfg)) -> ! {
     {
         let co = target.co.as_ref().unwrap().coroutine().clone();
         let (k, w2, cf) = (p.cancel_after, w.clone(), cancel_flag.clone());
+        let skip = p.adjacent.is_some() && !never;
         actors.push(rt::spawn_actor(Ctx::Thread, "ctl", move || {
+            if skip {
+                return;
+            }
             for _ in 0..k {
                 engine::yield_point();
             }
